@@ -7,7 +7,7 @@ res = json.load(open(os.path.join(ROOT, "RESULTS.json"))) if os.path.exists(os.p
 hist = json.load(open(os.path.join(ROOT, "HISTORY.json")))
 print("| id | breaks | what it needs to manifest | caught by (class / site of the first report) | missed at first? |")
 print("|---|---|---|---|---|")
-for sid in sorted(d for d in os.listdir(ROOT) if os.path.isdir(os.path.join(ROOT, d))):
+for sid in sorted(d for d in os.listdir(ROOT) if os.path.isdir(os.path.join(ROOT, d)) and d != "retired"):
     m = json.load(open(os.path.join(ROOT, sid, "meta.json")))
     r = res.get(sid, {})
     caught = []
